@@ -28,6 +28,7 @@ structure Params where
   k : Nat := 0                 -- a mode / position
   dims : List Nat := []        -- a list of modes (e.g. the modes that remain)
   flag : String := ""          -- sub-case selector (documented per entry)
+  kinds : List Nat := []       -- kinds of the parts of a sum tensor, in order (`Heap/Table2.lean`)
   deriving Repr, Inhabited
 
 /-- What the property permits. -/
@@ -494,21 +495,7 @@ def alias_all (p : Params) (ops : List View) : Built :=
 
 /-! ### matricized tensors -/
 
-/-- `tenmat(data, rdims, cdims, tshape, copy)` (tenmat.py:97-177).  operands: data (, rdims,
-cdims).  1-d data: `np.reshape(data.copy(), (1, n))` first.  Then `to_memory_order(data, "F",
-copy)` where `copy` is forced when the data is not F-contiguous (`data.copy()` is C-ordered,
-`asfortranarray` follows).  rindices / cindices are copies of fresh `astype(int)` arrays. -/
-def tenmat_init (p : Params) (ops : List View) : Built :=
-  let b := ops.length
-  let d := ops.getD 0 default
-  if d.shape.length == 1 then
-    { prog := [.copy 0, .reshapeF b p.shape, if p.copy then .copy (b + 1) else .asF (b + 1), .asF (b + 2),
-               .fresh [] (List.range b), .fresh [] (List.range b)],
-      res := [("data", b + 3), ("rindices", b + 4), ("cindices", b + 5)] }
-  else
-    let copy := p.copy || !d.isF
-    { prog := [if copy then .copy 0 else .alias 0, .asF b, .fresh [] (List.range b), .fresh [] (List.range b)],
-      res := [("data", b + 1), ("rindices", b + 2), ("cindices", b + 3)] }
+/- the constructors of `tenmat` and `sptenmat` are in part 4 (`Heap/Table2.lean`: `tenmat_init2`, `sptenmat_init2`) -/
 
 /-- `tenmat.to_tensor(copy)` (tenmat.py:270-283).  operands: data rindices cindices.
 `p.dims` = tshape[order], `p.perm` = argsort(order), `p.shape` = tshape.  More than one
@@ -543,17 +530,6 @@ def tenmat_setitem (_ : Params) (ops : List View) : Built :=
   let b := ops.length
   { prog := [.write 0 ((List.range b).drop 3), .alias 0, .alias 1, .alias 2],
     res := [("data", b), ("rindices", b + 1), ("cindices", b + 2)] }
-
-/-- `sptenmat(subs, vals, rdims, cdims, tshape, copy)` (sptenmat.py:93-166).  operands: subs,
-vals (, rdims, cdims).  copy: unique rows, accumulated values – all new.  no copy: subs and
-vals kept (when there are values); rdims / cdims are always fresh `astype(int)` arrays. -/
-def sptenmat_init (p : Params) (ops : List View) : Built :=
-  let b := ops.length
-  let empty := (ops.getD 1 default).size == 0
-  let keep := !p.copy && !empty
-  { prog := [if keep then .alias 0 else .fresh [] [0, 1], if keep then .alias 1 else .fresh [] [0, 1],
-             .fresh [] (List.range b), .fresh [] (List.range b)],
-    res := [("subs", b), ("vals", b + 1), ("rdims", b + 2), ("cdims", b + 3)] }
 
 /-- `sptenmat.double()` (sptenmat.py:361), repaired with `copy=True` (see `sptensor_spmatrix`). -/
 def sptenmat_double (p : Params) (ops : List View) : Built := sptensor_spmatrix p ops
@@ -679,7 +655,9 @@ def pf (_ : Params) : Spec := .pureFresh
 /-- receiver operands `0 .. n` of a Kruskal tensor -/
 def krecv (p : Params) : Spec := .inPlace (List.range (p.n + 1))
 
-def table : List Entry := [
+/-- the entries of part 3 (part 4, `Heap/Table2.lean`, adds the matricized, Tucker, sum and remaining
+Kruskal entries; `table` is the concatenation) -/
+def table1 : List Entry := [
   ⟨"tensor", "__init__", noCopyIf [0], tensor_init, atLeast 1⟩,
   ⟨"tensor", "copy", pf, tensor_copy, noPre⟩,
   ⟨"tensor", "double", pf, tensor_double, noPre⟩,
@@ -717,11 +695,9 @@ def table : List Entry := [
   ⟨"ttensor", "__init__", fun p => noCopyIf (List.range (p.k + p.n)) p, ttensor_init, (fun p b => decide (p.k + p.n ≤ b))⟩,
   ⟨"any", "copy_all", pf, copy_all, noPre⟩,
   ⟨"any", "alias_all", fun p => .noCopy (List.range p.m), alias_all, (fun p b => decide (p.m ≤ b))⟩,
-  ⟨"tenmat", "__init__", noCopyIf [0], tenmat_init, atLeast 1⟩,
   ⟨"tenmat", "to_tensor", noCopyIf [0], tenmat_to_tensor, atLeast 1⟩,
   ⟨"tenmat", "__getitem__", pf, tenmat_getitem, noPre⟩,
   ⟨"tenmat", "__setitem__", fun _ => .inPlace [0, 1, 2], tenmat_setitem, atLeast 3⟩,
-  ⟨"sptenmat", "__init__", noCopyIf [0, 1], sptenmat_init, atLeast 2⟩,
   ⟨"sptenmat", "double", pf, sptenmat_double, noPre⟩,
   ⟨"sptenmat", "__setitem__", fun _ => .inPlace [0, 1, 2, 3], sptenmat_setitem, atLeast 4⟩,
   ⟨"utils", "tt_ind2sub", pf, tt_ind2sub_fixed, noPre⟩,
